@@ -1,0 +1,123 @@
+//go:build verif
+
+package layer4
+
+import (
+	"os"
+	"runtime"
+	"strconv"
+	"strings"
+	"sync"
+	"sync/atomic"
+	"time"
+)
+
+// Instrumentation for the runtime-verification harness (build tag "verif").
+//
+// verifBufRelease is called right before a pooled matching buffer is returned
+// to bufPool. With VERIF_POISON=1 the whole capacity of the buffer is
+// overwritten with a poison pattern, so that any connection still referring
+// to the buffer reads poison (a purpose-built use-after-release sanitizer).
+//
+// verifPoint(name) is a named yield point. VERIF_YIELD="name=prob:maxus,..."
+// makes the point sleep up to maxus microseconds (or just Gosched when maxus
+// is 0) with probability prob (0..1); "*" matches every point.
+
+const VerifPoisonByte = 0xA5
+
+var (
+	verifPoison   = os.Getenv("VERIF_POISON") == "1"
+	verifReleases atomic.Int64
+	verifPoints   sync.Map // name -> *atomic.Int64
+	verifYield    = parseVerifYield(os.Getenv("VERIF_YIELD"))
+	verifRnd      atomic.Uint64
+)
+
+type verifYieldSpec struct {
+	prob  float64
+	maxUs int
+}
+
+func parseVerifYield(s string) map[string]verifYieldSpec {
+	m := map[string]verifYieldSpec{}
+	for _, part := range strings.Split(s, ",") {
+		part = strings.TrimSpace(part)
+		if part == "" {
+			continue
+		}
+		kv := strings.SplitN(part, "=", 2)
+		if len(kv) != 2 {
+			continue
+		}
+		pv := strings.SplitN(kv[1], ":", 2)
+		prob, err := strconv.ParseFloat(pv[0], 64)
+		if err != nil {
+			continue
+		}
+		spec := verifYieldSpec{prob: prob}
+		if len(pv) == 2 {
+			spec.maxUs, _ = strconv.Atoi(pv[1])
+		}
+		m[kv[0]] = spec
+	}
+	if seed, err := strconv.ParseUint(os.Getenv("VERIF_YIELD_SEED"), 10, 64); err == nil {
+		verifRnd.Store(seed)
+	}
+	return m
+}
+
+func verifNext() uint64 {
+	// splitmix64 over an atomic counter: cheap, thread-safe, seedable
+	z := verifRnd.Add(0x9E3779B97F4A7C15)
+	z = (z ^ (z >> 30)) * 0xBF58476D1CE4E5B9
+	z = (z ^ (z >> 27)) * 0x94D049BB133111EB
+	return z ^ (z >> 31)
+}
+
+func verifBufRelease(buf []byte) {
+	verifReleases.Add(1)
+	if verifPoison {
+		b := buf[:cap(buf)]
+		for i := range b {
+			b[i] = VerifPoisonByte
+		}
+	}
+}
+
+func verifPoint(name string) {
+	c, ok := verifPoints.Load(name)
+	if !ok {
+		c, _ = verifPoints.LoadOrStore(name, new(atomic.Int64))
+	}
+	c.(*atomic.Int64).Add(1)
+	if len(verifYield) == 0 {
+		return
+	}
+	spec, ok := verifYield[name]
+	if !ok {
+		spec, ok = verifYield["*"]
+		if !ok {
+			return
+		}
+	}
+	r := verifNext()
+	if float64(r%1000000)/1000000.0 >= spec.prob {
+		return
+	}
+	if spec.maxUs <= 0 {
+		runtime.Gosched()
+		return
+	}
+	time.Sleep(time.Duration(1+(r>>20)%uint64(spec.maxUs)) * time.Microsecond)
+}
+
+// VerifStats reports how many pooled buffers were released and how often each
+// yield point was passed.
+func VerifStats() (releases int64, points map[string]int64) {
+	points = map[string]int64{}
+	verifPoints.Range(func(k, v any) bool {
+		points[k.(string)] = v.(*atomic.Int64).Load()
+		return true
+	})
+	return verifReleases.Load(), points
+}
